@@ -40,6 +40,9 @@ func dsDescribeCmd(a Args) {
 		n *= 10
 	}
 	dsKnownWitnesses(s)
+	for _, t := range dsFixedScopes() {
+		dsScopeGroupOf(s, d, t)
+	}
 	for i := 0; i < n; i++ {
 		switch {
 		case i%7 == 6:
@@ -110,6 +113,15 @@ func dsStats(s *dsSink, t *dsTy) {
 			s.count("feature:unenforced")
 		}
 		for _, p := range x.Props {
+			if p.P.Disabled && p.P.Default != nil {
+				if p.P.DisableLate {
+					s.count("feature:default-disabled-after-construction")
+				} else {
+					s.count("feature:default-disabled-at-declaration")
+				}
+			}
+		}
+		for _, p := range x.Props {
 			if p.P.Default != nil {
 				s.count("feature:default")
 			}
@@ -128,7 +140,28 @@ func dsStats(s *dsSink, t *dsTy) {
 
 // dsScopeGroup: one generated scope through the whole C09 chain.
 func dsScopeGroup(s *dsSink, d *dsGen, ns bool) {
-	t := d.scope(ns)
+	dsScopeGroupOf(s, d, d.scope(ns))
+}
+
+// dsFixedScopes are hand-written scopes every run goes through: a defaulted property that is
+// disabled - at declaration, and after the scope had been built - next to enabled ones.
+func dsFixedScopes() []*dsTy {
+	str := func() *dsTy { return &dsTy{T: "str"} }
+	mk := func(late bool, reason *string) *dsTy {
+		return &dsTy{T: "scope", Root: "A", Objs: []dsNamedObj{{"A", &dsTy{T: "obj", ID: "A", Props: []dsNamedProp{
+			{"a", &dsProp{Ty: str(), Default: hx.MkDefault("\"x\""), Disabled: true, DisableLate: late, DisabledReason: reason}},
+			{"b", &dsProp{Ty: str()}},
+			{"n", &dsProp{Ty: &dsTy{T: "int"}, Default: hx.MkDefault("5")}},
+			{"sub", &dsProp{Ty: &dsTy{T: "ref", ID: "B"}}},
+		}}}, {"B", &dsTy{T: "obj", ID: "B", Props: []dsNamedProp{
+			{"c", &dsProp{Ty: &dsTy{T: "bool"}, Default: hx.MkDefault("true"), Disabled: true, DisableLate: late}},
+			{"d", &dsProp{Ty: str()}},
+		}}}}}
+	}
+	return []*dsTy{mk(false, nil), mk(true, nil), mk(true, hx.StrP("switched off")), mk(false, hx.StrP("switched off"))}
+}
+
+func dsScopeGroupOf(s *dsSink, d *dsGen, t *dsTy) {
 	hasNS := false
 	t.walk(func(x *dsTy) {
 		if x.T == "ref" && x.NS != "" {
@@ -240,6 +273,10 @@ func dsBehaviour(s *dsSink, d *dsGen, t *dsTy, orig, rebuilt schema.Type, leg st
 	for i := 0; i < 2; i++ {
 		inputs = append(inputs, d.g.Value(ft, hx.Env{}, 0))
 	}
+	// inputs built from the structure of the schema: everything supplied, only what is required
+	// supplied (so that defaults - also those of disabled properties - come into play), nothing
+	inputs = append(inputs, dsCoverOpt(d.g, t, map[string]*dsTy{}, map[string]int{}, 0, 0, false),
+		dsCoverOpt(d.g, t, map[string]*dsTy{}, map[string]int{}, 1, 0, true), hx.StrAny())
 	inputs = append(inputs, d.g.RandomVal(0))
 	cmp := func(op string, v *hx.Val, goVal any, useGo bool) (hx.Result, any) {
 		arg := func() any {
